@@ -374,8 +374,10 @@ def finish(ctx, level, coverage, assumptions):
         "wall_s": round(time.time() - ctx.t0, 2),
         "violations": n_viol,
     }
-    os.makedirs(os.path.join(VERIF, "evidence"), exist_ok=True)
-    with open(os.path.join(VERIF, "evidence", ctx.pid + ".json"), "w") as fh:
+    # X.. ids are spec-coverage extras (behaviour outside the 20 listed properties): same machinery, own evidence directory
+    evdir = os.path.join(VERIF, "evidence_extra" if ctx.pid.startswith("X") else "evidence")
+    os.makedirs(evdir, exist_ok=True)
+    with open(os.path.join(evdir, ctx.pid + ".json"), "w") as fh:
         json.dump(ev, fh, indent=1, sort_keys=True, default=str)
         fh.write("\n")
     ctx.log("done: violations=%d known=%d wall=%.1fs" % (n_viol, len(seen_known), time.time() - ctx.t0))
